@@ -744,3 +744,69 @@ Example test_unescape_leaves_context :
   unescape false [97; 60; 98] = None /\ unescape true [97; 34] = None /\
   unescape false [38; 120; 59] = None /\ unescape true [60; 38; 113; 117; 111; 116; 59] = Some [60; 34].
 Proof. repeat split; vm_compute; reflexivity. Qed.
+
+(* ------------------------------------------------------------------ rcdom's deque of SerializeOp = the recursive traversal *)
+Definition ops_sum (ch : list node) : nat := fold_right (fun c acc => node_ops c + acc)%nat O ch.
+
+Definition after (r : sres) (k : sstate -> option sres) : option sres :=
+  match r with SOk st => k st | SPanic => Some SPanic end.
+
+Definition open_ok (v : variant) (o : opts) (n : node) : Prop :=
+  forall fuel rest st, (node_ops n <= fuel)%nat ->
+  run_ops v o fuel (OpOpen n :: rest) st =
+  after (visit v o n st) (fun st' => run_ops v o (fuel - node_ops n) rest st').
+
+Lemma run_ops_children v o ch : Forall (open_ok v o) ch ->
+  forall fuel more st, (ops_sum ch <= fuel)%nat ->
+  run_ops v o fuel (map OpOpen ch ++ more) st =
+  after (visit_all v o ch st) (fun st' => run_ops v o (fuel - ops_sum ch) more st').
+Proof.
+  induction 1 as [|c ch Hc Hch IH]; intros fuel more st Hf.
+  - cbn. now rewrite Nat.sub_0_r.
+  - cbn [map app visit_all ops_sum fold_right] in *. fold (ops_sum ch) in *.
+    rewrite Hc by lia. destruct (visit v o c st) as [st'|]; cbn [after bind]; [|reflexivity].
+    rewrite IH by lia. destruct (visit_all v o ch st'); cbn [after]; [|reflexivity].
+    f_equal. lia.
+Qed.
+
+Lemma run_ops_open v o : forall n, open_ok v o n.
+Proof.
+  induction n as [ch _|name|t|t|name attrs ch IHch|t d] using node_ind'; intros fuel rest st Hf.
+  - destruct fuel; [cbn in Hf; lia|]. reflexivity.
+  - destruct fuel; [cbn in Hf; lia|]. cbn [run_ops visit node_ops after]. unfold write_doctype.
+    cbn [after]. now rewrite Nat.sub_succ, Nat.sub_0_r.
+  - destruct fuel; [cbn in Hf; lia|]. cbn [run_ops visit node_ops].
+    destruct (write_text v o st t); cbn [after]; [now rewrite Nat.sub_succ, Nat.sub_0_r|reflexivity].
+  - destruct fuel; [cbn in Hf; lia|]. cbn [run_ops visit node_ops after]. unfold write_comment.
+    cbn [after]. now rewrite Nat.sub_succ, Nat.sub_0_r.
+  - rewrite visit_element. cbn [node_ops] in *. fold (ops_sum ch) in *.
+    destruct fuel as [|f]; [lia|]. cbn [run_ops].
+    destruct (start_elem v o st name attrs) as [st1|]; cbn [bind after]; [|reflexivity].
+    rewrite (run_ops_children v o ch IHch) by lia.
+    destruct (visit_all v o ch st1) as [st2|]; cbn [bind after]; [|reflexivity].
+    destruct (f - ops_sum ch)%nat as [|g] eqn:Eg; [lia|]. cbn [run_ops].
+    destruct (end_elem o st2 name); cbn [after]; [|reflexivity].
+    f_equal. lia.
+  - destruct fuel; [cbn in Hf; lia|]. cbn [run_ops visit node_ops after].
+    unfold write_processing_instruction. cbn [after]. now rewrite Nat.sub_succ, Nat.sub_0_r.
+Qed.
+
+Lemma ops_sum_children n : (ops_sum (children_of n) <= node_ops n)%nat.
+Proof. destruct n; cbn [children_of node_ops ops_sum fold_right]; fold ops_sum; try lia; unfold ops_sum; lia. Qed.
+
+Theorem ser_deque_is_ser v o n : ser_deque v o n = Some (ser v o n).
+Proof.
+  unfold ser_deque, ser. destruct (traversal_scope o) as [|x].
+  - rewrite (run_ops_open v o n) by lia.
+    destruct (visit v o n (ser_new v o)); cbn [after]; [|reflexivity].
+    replace (S (node_ops n) - node_ops n)%nat with 1%nat by lia. reflexivity.
+  - rewrite <- (app_nil_r (map OpOpen (children_of n))).
+    pose proof (ops_sum_children n) as Hs.
+    rewrite (run_ops_children v o (children_of n)); [| |lia].
+    + destruct (visit_all v o (children_of n) (ser_new v o)); cbn [after]; [|reflexivity].
+      destruct (S (node_ops n) - ops_sum (children_of n))%nat eqn:E; [lia|]. reflexivity.
+    + apply Forall_forall. intros c _. apply run_ops_open.
+Qed.
+
+Corollary ser_deque_bytes_is_ser_bytes v o n : ser_deque_bytes v o n = ser_bytes v o n.
+Proof. unfold ser_deque_bytes, ser_bytes. rewrite ser_deque_is_ser. reflexivity. Qed.
